@@ -278,3 +278,133 @@ pub fn ref_create(rows: &[Vec<Cls>], map: &[Option<usize>], project: Option<&[us
         sites: rows.len(),
     }
 }
+
+// ---------------------------------------------------------------------------------------------
+// Scripted sources: what a user of the library may do with the public `genotype::Reader` trait and
+// with the sites a `site::Reader` hands out (continue after an error or after the end, drop a site,
+// weight it, change the column layout between records).
+
+/// One step of a scripted genotype source.
+#[derive(Clone, Debug, PartialEq)]
+pub enum Step {
+    /// a record with these genotypes (in the current column order)
+    Row(Vec<genotype::Result>),
+    /// the source reports a (transient) I/O error
+    IoError,
+    /// the source reports the end; later steps are still delivered if the caller reads on
+    End,
+    /// from here on the columns are the samples with these names
+    Columns(Vec<String>),
+}
+
+pub struct ScriptReader {
+    samples: Vec<Sample>,
+    steps: Vec<Step>,
+    next: usize,
+    position: usize,
+}
+
+impl ScriptReader {
+    pub fn new(names: &[String], steps: Vec<Step>) -> Self {
+        ScriptReader { samples: names.iter().map(|n| Sample::from(n.clone())).collect(), steps, next: 0, position: 0 }
+    }
+}
+
+impl genotype::reader::Reader for ScriptReader {
+    fn current_contig(&self) -> &str {
+        "script"
+    }
+    fn current_position(&self) -> usize {
+        self.position
+    }
+    fn read_genotypes(&mut self) -> ReadStatus<Vec<genotype::Result>> {
+        loop {
+            let Some(step) = self.steps.get(self.next).cloned() else { return ReadStatus::Done };
+            self.next += 1;
+            match step {
+                Step::Row(r) => {
+                    self.position += 1;
+                    return ReadStatus::Read(r);
+                }
+                Step::IoError => return ReadStatus::Error(std::io::Error::new(std::io::ErrorKind::Interrupted, "scripted transient error")),
+                Step::End => return ReadStatus::Done,
+                Step::Columns(names) => self.samples = names.iter().map(|n| Sample::from(n.clone())).collect(),
+            }
+        }
+    }
+    fn samples(&self) -> &[Sample] {
+        &self.samples
+    }
+}
+
+/// What the caller does with a site it was handed.
+#[derive(Clone, Copy, Debug, PartialEq)]
+pub enum Use {
+    Add,
+    /// look at it and let it go
+    Drop,
+    /// add with a weight (`into_weighted(w)` for a projected site, `+= w` for a standard one)
+    Weight(f64),
+    /// `into_weighted(a).into_weighted(b)`: the last weight counts
+    WeightTwice(f64, f64),
+}
+
+impl Use {
+    pub fn effective(self) -> f64 {
+        match self {
+            Use::Add => 1.0,
+            Use::Drop => 0.0,
+            Use::Weight(w) => w,
+            Use::WeightTwice(_, b) => b,
+        }
+    }
+}
+
+/// What one call of `read_site` gave.
+#[derive(Clone, Copy, Debug, PartialEq)]
+pub enum Seen {
+    Counted,
+    Insufficient,
+    Error,
+    Done,
+}
+
+/// Calls `read_site` `calls` times whatever it returns, using the i-th handed-out site as `uses[i]`.
+pub fn run_script(reader: &mut site::Reader, calls: usize, uses: &[Use]) -> Result<(RefArray, Vec<Seen>), String> {
+    let r = catch(|| {
+        let mut scs = reader.create_zero_scs();
+        let mut seen = Vec::new();
+        let mut handed = 0usize;
+        for _ in 0..calls {
+            match reader.read_site() {
+                ReadStatus::Read(Site::Standard(counts)) => {
+                    let u = uses.get(handed).copied().unwrap_or(Use::Add);
+                    handed += 1;
+                    if u != Use::Drop {
+                        scs[&counts] += u.effective();
+                    }
+                    seen.push(Seen::Counted);
+                }
+                ReadStatus::Read(Site::Projected(projected)) => {
+                    let u = uses.get(handed).copied().unwrap_or(Use::Add);
+                    handed += 1;
+                    match u {
+                        Use::Add => projected.add_unchecked(&mut scs),
+                        Use::Drop => drop(projected),
+                        Use::Weight(w) => projected.into_weighted(w).add_unchecked(&mut scs),
+                        Use::WeightTwice(a, b) => projected.into_weighted(a).into_weighted(b).add_unchecked(&mut scs),
+                    }
+                    seen.push(Seen::Counted);
+                }
+                ReadStatus::Read(Site::InsufficientData) => {
+                    handed += 1;
+                    seen.push(Seen::Insufficient);
+                }
+                ReadStatus::Error(_) => seen.push(Seen::Error),
+                ReadStatus::Done => seen.push(Seen::Done),
+            }
+        }
+        (ref_from_spectrum(&scs), seen)
+    });
+    r.map_err(|p| format!("panic: {p}"))
+}
